@@ -417,7 +417,8 @@ Definition geo_ok (xs : list Q) (o : xreal) : Prop :=
 
 Definition stats_ok (sorted hasw : bool) (xs ws : list Q) (o : stat_obs) : Prop :=
   let w := ows hasw ws in
-  (hasw = true -> length ws = length xs) /\
+  (* the case is a legal Sample: one non-negative weight per value, Sorted only on ascending data *)
+  (hasw = true -> length ws = length xs /\ Forall (fun w => 0 <= w) ws) /\ (sorted = true -> StronglySorted Qle xs) /\
   (* slice functions stats.Mean / Variance / StdDev / GeoMean / Bounds *)
   mean_ok xs 0 (so_mean o) /\ var_ok xs 0 (so_var o) /\ std_ok xs 0 (so_std o) /\ geo_ok xs (so_geo o) /\
   bounds_ok xs (so_bmin o) (so_bmax o) /\
@@ -448,8 +449,24 @@ Proof.
       split; [exact P|]. intro L64. exact (proj2 (geomean_value_sound xs g L64 H NN)).
 Qed.
 
+Lemma asc_sound : forall l, asc l = true -> StronglySorted Qle l.
+Proof.
+  intros l H. apply Sorted_StronglySorted; [exact Qle_trans|].
+  induction l as [|x [|y t] IH]; [constructor | repeat constructor |].
+  cbn [asc] in H. breflect. constructor; [apply IH; assumption | constructor; assumption].
+Qed.
+
+Lemma sample_ok_sound sorted hasw xs ws : sample_ok sorted hasw xs ws = true ->
+  (hasw = true -> length ws = length xs /\ Forall (fun w => 0 <= w) ws) /\ (sorted = true -> StronglySorted Qle xs).
+Proof.
+  unfold sample_ok. intro H. breflect. split.
+  - intros ->. cbn in H. breflect. split; [assumption|]. apply Forall_forall. intros w Hw.
+    rewrite forallb_forall in H1. apply Qle_bool_iff. apply H1. exact Hw.
+  - intros ->. cbn in H0. apply asc_sound. exact H0.
+Qed.
+
 Theorem check_stats_sound sorted hasw xs ws o c tag pos diag :
-  (hasw = true -> length ws = length xs) ->
+  sample_ok sorted hasw xs ws = true ->
   check_stats sorted hasw xs ws o = verdict c tag pos diag -> (c = 0 \/ c = 1)%Z -> stats_ok sorted hasw xs ws o.
 Proof.
   intros HL V Hc. unfold check_stats in V. cbv zeta in V.
@@ -458,7 +475,8 @@ Proof.
   clear V. apply first_false_forall in R.
   pop R B0. pop R B1. pop R B2. pop R B3. pop R B4. pop R B5. pop R B6. pop R B7. pop R B8. pop R B9. pop R B10. pop R B11. pop R B12.
   clear R B8. unfold stats_ok. cbv zeta.
-  split; [exact HL|].
+  destruct (sample_ok_sound _ _ _ _ HL) as [HL1 HL2].
+  split; [exact HL1|]. split; [exact HL2|].
   split; [exact (mean_sound xs _ 0 _ B0)|].
   split; [exact (variance_sound xs 0 _ B1)|].
   split; [exact (stddev_sound xs 0 _ B2)|].
@@ -471,6 +489,53 @@ Proof.
   split; [apply (sweight_sound xs (ows hasw ws) sorted); destruct hasw; exact B10|].
   split; [apply (sbounds_sound xs (ows hasw ws) sorted); destruct hasw; exact B11|].
   breflect. exact B12.
+Qed.
+
+(* the premises of smean_ok / sbounds_ok are facts of an accepted case: the weighted Mean is compared whenever some
+   weight is non-zero, Bounds always *)
+Lemma nonneg_combine : forall (xs ws : list Q), Forall (fun w => 0 <= w) ws -> nonneg_weights (combine xs ws).
+Proof.
+  unfold nonneg_weights. induction xs as [|x xt IH]; intros [|w wt] F; cbn; try constructor.
+  - inversion F; assumption.
+  - apply IH. inversion F; assumption.
+Qed.
+Lemma wsum_w_pos : forall (xs ws : list Q), length ws = length xs -> Forall (fun w => 0 <= w) ws ->
+  (exists w, In w ws /\ ~ w == 0) -> 0 < wsum_w (combine xs ws).
+Proof.
+  induction xs as [|x xt IH]; intros [|w wt] L F (w0 & I & N); cbn [length] in L; try discriminate; [destruct I|].
+  inversion F as [|? ? Hw F']; subst. cbn [combine]. rewrite wsum_w_cons.
+  assert (P : 0 <= wsum_w (combine xt wt)).
+  { clear -F'. revert wt F'. induction xt as [|y yt IH]; intros [|v vt] F; cbn; try lra; unfold wsum_w; cbn; try lra.
+    inversion F; subst. specialize (IH vt H2). unfold wsum_w in IH. lra. }
+  destruct I as [->|I].
+  - assert (0 < w0) by (apply Qnot_le_lt; intro C; apply N; lra). lra.
+  - specialize (IH wt ltac:(lia) F' (ex_intro _ w0 (conj I N))). lra.
+Qed.
+
+Theorem stats_ok_weighted sorted xs ws o : stats_ok sorted true xs ws o -> xs <> [] ->
+  (exists w, In w ws /\ ~ w == 0) ->
+  sm_st o = 0%Z /\ obs_near (tol_wmean xs) (wmean_def (combine xs ws)) (sm_mean o).
+Proof.
+  intros S Hx Hw. unfold stats_ok in S. cbv zeta in S. destruct S as (HL & _ & _ & _ & _ & _ & _ & SM & _).
+  destruct (HL eq_refl) as [L F]. cbn [ows smean_ok] in SM. destruct xs as [|x t]; [congruence|].
+  apply SM; [apply nonneg_combine; exact F | apply wsum_w_pos; assumption].
+Qed.
+Theorem stats_ok_bounds sorted hasw xs ws o : stats_ok sorted hasw xs ws o ->
+  bounds_ok (if hasw then used (combine xs ws) else xs) (s_bmin o) (s_bmax o).
+Proof.
+  intros S. unfold stats_ok in S. cbv zeta in S.
+  destruct S as (HL & HS & _ & _ & _ & _ & _ & _ & _ & _ & _ & _ & SB & _). unfold sbounds_ok in SB.
+  destruct hasw; cbn [ows] in SB.
+  - apply SB; [exact HS | exact (proj1 (HL eq_refl))].
+  - apply SB. exact HS.
+Qed.
+
+Theorem stats_ok_closed sorted hasw xs ws o : stats_ok sorted hasw xs ws o ->
+  (hasw = true -> xs <> [] -> (exists w, In w ws /\ ~ w == 0) ->
+     sm_st o = 0%Z /\ obs_near (tol_wmean xs) (wmean_def (combine xs ws)) (sm_mean o)) /\
+  bounds_ok (if hasw then used (combine xs ws) else xs) (s_bmin o) (s_bmax o).
+Proof.
+  intros S. split; [intros -> Hx Hw; exact (stats_ok_weighted sorted xs ws o S Hx Hw) | exact (stats_ok_bounds _ _ _ _ _ S)].
 Qed.
 
 (* ====================== 6. kind 1: histories ====================== *)
@@ -606,14 +671,13 @@ Theorem check_case_sound cs c tag pos diag :
   check_case cs = verdict c tag pos diag -> (c = 0 \/ c = 1)%Z -> c = 0%Z /\ case_ok cs.
 Proof.
   intros V Hc. destruct cs as [sorted hasw xs ws o | sorted hasw xs ws ops | v]; cbn [check_case case_ok] in *.
-  - destruct (hasw && negb (length ws =? length xs)%nat) eqn:G; [bad_verdict V|].
-    assert (HL : hasw = true -> length ws = length xs).
-    { intros ->. cbn in G. breflect. exact G. }
+  - destruct (negb (sample_ok sorted hasw xs ws)) eqn:G; [bad_verdict V|]. breflect.
     split; [|eapply check_stats_sound; eassumption].
     unfold check_stats in V. cbv zeta in V.
     match type of V with (match xs with [] => match ?r with _ => _ end | _ => _ end) = _ => destruct r end;
       destruct xs; apply verdict_inj in V; destruct V as [V _]; unfold V_OK, V_MISMATCH in V; lia.
-  - cbv zeta in V. destruct (run_hist [mkSample xs (if hasw then Some ws else None) sorted] ops 0%Z T_HIST) as [[[code tg] ps] dg] eqn:R.
+  - destruct (negb (sample_ok sorted hasw xs ws)) eqn:G; [bad_verdict V|]. clear G.
+    cbv zeta in V. destruct (run_hist [mkSample xs (if hasw then Some ws else None) sorted] ops 0%Z T_HIST) as [[[code tg] ps] dg] eqn:R.
     apply verdict_inj in V. destruct V as [V _].
     assert (C0 : code = 0%Z).
     { assert (G : forall ops st idx tag code tg ps dg, run_hist st ops idx tag = (code, tg, ps, dg) -> (code = 0 \/ code = 2 \/ code = 3)%Z).
